@@ -1010,9 +1010,8 @@ def run_corrupt_counts(run, vsim, d, quick):
         recs = [m for m in re.finditer(rb"[\x01-\x20]\x00{7}[a-zA-Z_]{3,24}", binary)
                 if struct.unpack("<Q", binary[m.start():m.start() + 8])[0] == m.end() - m.start() - 8]
         spots = sorted(set([m.end() for m in recs if m.end() + 8 <= len(binary)] + [m.start() for m in recs]))
-        if quick:
-            keyspots = [m.end() for m in recs if binary[m.start() + 8:m.end()] in (b"num_hills", b"counter", b"step", b"hills")]
-            spots = sorted(set(keyspots + r.sample(spots, min(len(spots), 6))))
+        keyspots = [m.end() for m in recs if binary[m.start() + 8:m.end()] in (b"num_hills", b"counter", b"step", b"hills")]
+        spots = sorted(set(keyspots + r.sample(spots, min(len(spots), 6 if quick else 40))))
         for sp in spots:
             for val in (1 << 22, 1 << 40):
                 bb = bytearray(binary); bb[sp:sp + 8] = struct.pack("<Q", val)
@@ -1020,8 +1019,7 @@ def run_corrupt_counts(run, vsim, d, quick):
         # text: every integer that follows a word
         tx = text.decode("latin1")
         ints = [m for m in re.finditer(r"(?<=[A-Za-z_] )\s*(\d+)(?=\s)", tx)]
-        if quick:
-            ints = [m for m in ints if re.search(r"(num_hills|numHills|counter|sizes|step)\s+$", tx[max(0, m.start() - 24):m.start(1)])][:6] + r.sample(ints, min(len(ints), 3))
+        ints = [m for m in ints if re.search(r"(num_hills|numHills|counter|sizes|step)\s+$", tx[max(0, m.start() - 24):m.start(1)])][:6 if quick else 20] + r.sample(ints, min(len(ints), 3 if quick else 25))
         for m in ints:
             for val in ("4000000", "999999999999"):
                 cases.append(("text", "integer at %d := %s" % (m.start(1), val), (tx[:m.start(1)] + val + tx[m.end(1):]).encode("latin1"), {"at": m.start(1), "value": val}))
@@ -1369,7 +1367,7 @@ def run_damage(run, vsim, d, quick, model=None):
                     run.mismatch("binary-reader-tie", {"cut": cut, "of": n, "hill_starts": hill_starts[:3]}, verdict, mo.strip())
             stats["binary_reader_model_cases"] = len(lines)
             stats["binary_reader_model_disagreements"] = ndis
-        flips = [(r.randrange(n), r.randrange(8)) for j in range(60 if quick else 1000)]
+        flips = [(r.randrange(n), r.randrange(8)) for j in range(60 if quick else 800)]
         if nm == "text":
             # aimed: every byte of the configuration block (step, dt, version, units and the separators)
             a0 = data.find(b"{"); b0 = data.find(b"}")
